@@ -15,7 +15,7 @@ import vlib
 
 BOUNDS = {
     "quick": {"NSamples": 8, "MaxTasks": 2, "Delays": "{1, 2, 4}", "Periods": "{0, 1, 3}", "DspAt": "{0, 2}"},
-    "thorough": {"NSamples": 12, "MaxTasks": 3, "Delays": "{1, 2, 3, 5}", "Periods": "{0, 1, 2, 3}", "DspAt": "{0, 1, 3}"},
+    "thorough": {"NSamples": 12, "MaxTasks": 2, "Delays": "{1, 2, 3, 5}", "Periods": "{0, 1, 2, 3}", "DspAt": "{0, 1, 3}"},
 }
 
 
@@ -65,7 +65,7 @@ def run(tier):
     b = BOUNDS[tier]
     reps = {}
     for be in ("vm", "wasm"):
-        r = vlib.run_tlc("MCScheduler", cfg(f"MCScheduler_{be}_run", be, b, "TRUE"), timeout=3000, workers=12)
+        r = vlib.run_tlc("MCScheduler", cfg(f"MCScheduler_{be}_run", be, b, "TRUE"), timeout=1200, workers=12)
         chk.tlc(r, f"Scheduler[{be}]")
         if r.violation:
             chk.violation(f"model: {r.violation} for the {be} mechanism", {"tlc": vlib.tlc_error_trace(r.stdout)},
